@@ -79,6 +79,7 @@ from apischema.types import AnyType, NoneType, Undefined, UndefinedType
 from apischema.typing import (
     get_args,
     get_origin,
+    is_literal,
     is_new_type,
     is_type,
     is_type_var,
@@ -93,6 +94,7 @@ from apischema.utils import (
     get_origin_or_type2,
     identity,
     is_union_of,
+    no_annotated,
     opt_or,
 )
 from apischema.visitor import Unsupported
@@ -115,18 +117,26 @@ SerializationMethodFactory = Callable[[AnyType], SerializationMethod]
 T = TypeVar("T")
 
 
-def expected_class(tp: AnyType) -> type:
+def expected_class(tp: AnyType) -> Any:  # a class or a tuple of classes (isinstance)
     origin = get_origin_or_type2(tp)
     if origin is NoneType:
         return NoneType
+    elif is_type_var(origin) or origin is Any:  # Any is a class since Python 3.11
+        return object
     elif is_typed_dict(origin):
         return collections.abc.Mapping
+    elif is_literal(no_annotated(tp)):
+        return tuple({v.__class__ for v in get_args(no_annotated(tp))})
+    elif is_union(origin):  # nested union (kept by Annotated / NewType)
+        classes: list = []
+        for arg in get_args(no_annotated(tp)):
+            cls = expected_class(arg)
+            classes.extend(cls if isinstance(cls, tuple) else [cls])
+        return tuple(classes)
     elif is_type(origin):
         return origin
     elif is_new_type(origin):
         return expected_class(origin.__supertype__)
-    elif is_type_var(origin) or origin is Any:
-        return object
     else:
         raise TypeError(f"{tp} is not supported in union serialization")
 
